@@ -53,8 +53,9 @@ theorem engine_classes_have_ctors :
 theorem seeder_as_modelled : AITB.Gen.C16Rng.getSeedAsModelled = true ∧ AITB.Gen.C16Rng.setRootSeedAsModelled = true := by
   decide +kernel
 
-/-- the Seeder is only ever used to seed an engine being constructed: no library code reseeds the root or draws seeds in the
-    middle of a computation (so `WOp.call` does not touch `World.seeder`) -/
+/-- the Seeder is only ever used to seed an engine being constructed: no library code reseeds the root or draws a seed for any
+    other purpose.  (A member function may still CONSTRUCT an engine-owning helper and so advance the Seeder: those are listed
+    by `calls_that_draw_seeds_accounted`; for all other classes `WOp.call` does not touch `World.seeder`.) -/
 theorem seeder_used_only_to_seed : AITB.Gen.C16Rng.usesOutsideInit = [] ∧ 30 ≤ AITB.Gen.C16Rng.seederUses := by
   decide +kernel
 
